@@ -18,6 +18,7 @@ def c01(run):
                         "runtime-error wording is not pinned by C01: a different text on a still-failing program is DRIFT"]
     run.gen_replay("Gen_Expr", gen_cfg(dict(Scope="types", ShapeLeaves=3)), ["replay-prog"], "C01:types")
     run.gen_replay("Gen_Expr", gen_cfg(dict(Scope="prec", ShapeLeaves=3)), ["replay-prog"], "C01:prec")
+    run.gen_replay("Gen_Expr", gen_cfg(dict(Scope="logic", ShapeLeaves=3)), ["replay-prog"], "C01:logic")
     if not run.quick:
         run.gen_replay("Gen_Expr", gen_cfg(dict(Scope="shape", ShapeLeaves=3)), ["replay-prog"], "C01:shape")
     n = 20000 if run.quick else 300000
@@ -162,6 +163,7 @@ def c17(run):
     run.gen_replay("Gen_Gram", gen_cfg(dict(Scope="recover", MaxLen=3 if q else 4), invariants=("EmitR", "GoodOk")), ["replay-gram"], "C17:recover")
     run.gen_replay("Gen_Gram", gen_cfg(dict(Scope="assign", MaxLen=1), invariants=("Emit", "AsgOk")), ["replay-gram"], "C17:assign")
     run.gen_replay("Gen_Gram", gen_cfg(dict(Scope="bindsel", MaxLen=1)), ["replay-gram"], "C17:bindsel")
+    run.gen_replay("Gen_Gram", gen_cfg(dict(Scope="nest", MaxLen=1)), ["replay-gram"], "C17:nest")
     run.gen_replay("Gen_Gram", gen_cfg(dict(Scope="comments", MaxLen=2 if q else 3)), ["replay-gram"], "C17:comments")
     chk_comp(run, "C17:comp", 1200 if q else 12000, ("accept-mismatch",),
              case_sources=[("Gen_Gram", gen_cfg(dict(Scope="assign", MaxLen=1)), {})], max_cases=4000)
@@ -433,14 +435,15 @@ def c11(run):
     run.exhaustive = True
 
 
-def sched(run, stage, n, invariants, depth=90):
+def sched(run, stage, n, invariants, depth=90, extra=(), tv=True, tokbuf=5):
     """Steered schedules: behaviours of BclPipeline *with their interleaving* (Gen_Sched, simulated) are stepped through the real
     goroutines held at their hook points; the outcome per schedule is exact. The logs of the first steered ParseFile runs are
     then validated by Trace_Pipe (which knows nothing of the schedule that produced them)."""
     import os
     tr = os.path.join(run.scratch, stage.replace(":", "_") + ".ndjson")
-    c = "SPECIFICATION SSpec\nCONSTANTS MaxReads = 3  TokBuf = 5  EmptyIsEOF = FALSE\nINVARIANT Emit\nCHECK_DEADLOCK FALSE\n"
-    r, s = run.gen_replay("Gen_Sched", c, ["replay-sched", "--tvout", tr, "--tvmax", "300" if run.quick else "3000"], stage,
+    # TokBuf: the real channel holds 10 tokens; a token of the model is 2 real ones (4 under the nlfirst rendering)
+    c = "SPECIFICATION SSpec\nCONSTANTS MaxReads = 3  TokBuf = %d  EmptyIsEOF = FALSE\nINVARIANT Emit\nCHECK_DEADLOCK FALSE\n" % tokbuf
+    r, s = run.gen_replay("Gen_Sched", c, ["replay-sched", "--tvout", tr, "--tvmax", ("300" if run.quick else "3000") if tv else "0"] + list(extra), stage,
                           simulate=10 ** 9, depth=depth, workers=1, max_cases=n)
     ex = s.get("extra") or {}
     for k in ("steered", "steering_lost", "hook_points_steered"):
@@ -516,17 +519,22 @@ def c19(run):
             ("Gen_Prog", gen_cfg(dict(Scope="bind", MaxItems=3)), {}),
             ("Gen_Prog", gen_cfg(dict(Scope="blocks", MaxItems=2)), {}),
             ("Gen_Expr", gen_cfg(dict(Scope="types", ShapeLeaves=3)), {}),
+            ("Gen_Expr", gen_cfg(dict(Scope="logic", ShapeLeaves=3)), dict(thin=1)),     # and / or / not two deep over truthy and falsy leaves: all of them
+            ("Gen_Expr", gen_cfg(dict(Scope="prec", ShapeLeaves=3)), dict(thin=8)),      # every pair of operators: and/or chains whose jumps land on jumps (a small scope, thinned less)
             ("Gen_Gram", gen_cfg(dict(Scope="all", MaxLen=3)), {}),
             ("Gen_Expr", gen_cfg(dict(Scope="sim", ShapeLeaves=3)), dict(simulate=10 ** 9, depth=12, workers=1, max_cases=20000 if q else 100000))]
     cases = os.path.join(run.scratch, "obs.cases")
     with open(cases, "w") as f:
         for mod, c, kw in srcs:
+            kw = dict(kw)
+            f.write(json.dumps(dict(thin=kw.pop("thin", 40 if q else 8))) + "\n")   # marker line: the stride of the cases that follow
+            f.flush()
             p = subprocess.Popen(["cat"], stdin=subprocess.PIPE, stdout=f, text=True)
             r = run.tlc(mod, c, consumer=p, label="C19:gen:" + mod, **kw)
             p.stdin.close()
             p.wait()
     tr = os.path.join(run.scratch, "obs.ndjson")
-    s = run.vh(["drive-obs", "--out", tr, "--max", "2500" if q else "25000", "--stride", "23" if q else "3"], "C19:drive", input_path=cases)
+    s = run.vh(["drive-obs", "--out", tr, "--max", "3000" if q else "26000", "--stride", "40" if q else "8", "--seed", str(run.seed)], "C19:drive", input_path=cases)
     n = (s.get("extra") or {}).get("traces", 0)
     if n == 0:
         raise Inconclusive("no observation traces")
@@ -584,7 +592,7 @@ def c08(run):
             p.stdin.close()
             p.wait()
     dg = os.path.join(run.scratch, "diags.ndjson")
-    s = run.vh(["drive-diag", "--out", dg, "--max", "2500" if run.quick else "20000", "--stride", "11" if run.quick else "2"], "C08:diag", input_path=cases)
+    s = run.vh(["drive-diag", "--out", dg, "--max", "3000" if run.quick else "24000", "--stride", "40" if run.quick else "5", "--seed", str(run.seed)], "C08:diag", input_path=cases)
     run.traces -= s.get("judged", 0)
     n = (s.get("extra") or {}).get("sources", 0)
     if n == 0:
@@ -637,7 +645,7 @@ def c16(run):
                 "(the inputs whose outcome depends on map order in an order-sensitive implementation), programs of the C02/C04 families and rejected token "
                 "strings with several diagnostics. Each call is repeated R times in one process (R=6 quick, 30 thorough): error text, target, dump bytes, output, "
                 "diagnostics, blocks and binding must be identical, the dump must be unchanged by Execute and a second Execute must agree; then three fresh "
-                "processes with GOMAXPROCS 1, 4, 16 (one of them running the calls in the opposite order) must produce the same digest for every case; declared types of the same name with different tags are among the targets; every 3-read reader script must give ParseFile the single return class the pipeline model allows. Non-trivial = sens for bind cases, the family's rule otherwise.")
+                "processes with GOMAXPROCS 1, 4, 16 (one of them running the calls in the opposite order) must produce the same digest for every case; declared types of the same name with different tags are among the targets; every 3-read reader script must give ParseFile the single return class the pipeline model allows; under steered schedules (behaviours of the pipeline model stepped through the real goroutines) one script must give the same diagnostics whatever the interleaving. Non-trivial = sens for bind cases, the family's rule otherwise.")
     reps = 6 if run.quick else 30
     import os
     digs = []
@@ -685,6 +693,10 @@ def c16(run):
         run.extra["fresh_process_runs"] += 3
     # the file variants: the model gives every reader script exactly one return class, so the real calls must not vary between runs
     c = "SPECIFICATION Spec\nCONSTANTS MaxReads = 3  TokBuf = 2  EmptyIsEOF = FALSE\nINVARIANT Emit\nCHECK_DEADLOCK FALSE\n"
+    # the diagnostics of an input must not depend on the schedule: steered schedules of the pipeline model, the same script under
+    # many interleavings, with the payload rendered so that chunks end inside a line (the line table lags behind the parser)
+    sched(run, "C16:sched", 8000 if run.quick else 100000, (), extra=("--samelog", "1", "--nlfirst", "1"), tv=False, tokbuf=2)
+    sched(run, "C16:sched-lf", 3000 if run.quick else 40000, (), extra=("--samelog", "1"), tv=False)
     run.gen_replay("Gen_Pipe", c, ["replay-pipe", "--reps", "8" if run.quick else "20", "--seed", str(run.seed + 5), "--stride", "60" if run.quick else "12", "--minreads", "3"],
                    "C16:pipeline", workers=8)
     run.exhaustive = False
